@@ -15,6 +15,7 @@ CONSTANTS
   MaxDev = 1
   MaxOps = 6
   StaleClaim = FALSE
+  EmitMod = 1
 CONSTRAINT Bound
 VIEW View
 INVARIANT AllOrNothing
